@@ -27,6 +27,7 @@ import (
 	"sort"
 	"strconv"
 	"strings"
+	"syscall"
 	"time"
 
 	"github.com/bronlabs/bron-crypto/pkg/mpc/sharing"
@@ -499,7 +500,7 @@ func modelClasses(driver string, muts []*mutation) (map[string]string, error) {
 	var lines []string
 	seen := map[string]bool{}
 	for _, m := range muts {
-		q := fmt.Sprintf("classify %s %d %s %s", m.proto, m.key.round, bcastText(m.key), dash(m.field))
+		q := fmt.Sprintf("classify %s %d %s %s", m.proto, m.key.round, bcastText(m.key), vh.Hex([]byte(m.field)))
 		if !seen[q] {
 			seen[q] = true
 			lines = append(lines, q)
@@ -538,11 +539,22 @@ func wantOf(classes map[string]string, a *adapter, m *mutation) string {
 	if structuralOp(m) {
 		return "bound"
 	}
-	c := classes[fmt.Sprintf("classify %s %d %s %s", m.proto, m.key.round, bcastText(m.key), dash(m.field))]
+	c := classes[fmt.Sprintf("classify %s %d %s %s", m.proto, m.key.round, bcastText(m.key), vh.Hex([]byte(m.field)))]
+	if c == "unknown" || c == "error" {
+		return "" // a leaf the model has no field for: clauses (a)-(c) only
+	}
 	return c
 }
 
 // ---- main -------------------------------------------------------------------------------
+
+func cpuSeconds() float64 {
+	var ru syscall.Rusage
+	if syscall.Getrusage(syscall.RUSAGE_SELF, &ru) != nil {
+		return 0
+	}
+	return float64(ru.Utime.Sec+ru.Stime.Sec) + float64(ru.Utime.Usec+ru.Stime.Usec)/1e6
+}
 
 func parseCase(s string) (*mutation, error) {
 	m := &mutation{}
@@ -625,8 +637,10 @@ func prepare(a *adapter, seed int64, res *vh.Result) *protoState {
 		o.forget()
 	}
 	// the parallel session: same keys, other randomness and session
-	if o2, status := runWithTimeout(a, seed, "b", recHook{st.par}); status == "" && o2.forget != nil {
-		o2.forget()
+	if !a.noParallel {
+		if o2, status := runWithTimeout(a, seed, "b", recHook{st.par}); status == "" && o2 != nil && o2.forget != nil {
+			o2.forget()
+		}
 	}
 	for _, k := range st.rec.keys {
 		st.pool.Add(k.String(), st.rec.bytes[k])
@@ -639,9 +653,9 @@ func prepare(a *adapter, seed int64, res *vh.Result) *protoState {
 
 // quotas: number of mutated runs per protocol and tier.
 var quota = map[string]map[string]int{
-	"quick": {"session": 90, "gennaro": 120, "hjky": 60, "redistribute": 110, "lindell22": 140, "boldyreva": 24, "dkls23": 16,
-		"canetti": 40, "dkls23-softspoken": 4, "lindell17": 6, "cggmp21": 4},
-	"thorough": {"session": 3000, "gennaro": 1500, "hjky": 800, "redistribute": 1500, "lindell22": 1500, "boldyreva": 200, "dkls23": 90,
+	"quick": {"session": 90, "gennaro": 120, "hjky": 60, "redistribute": 110, "lindell22": 140, "boldyreva": 40, "boldyreva-3": 12, "dkls23": 7,
+		"canetti": 40, "dkls23-softspoken": 3, "lindell17": 6, "cggmp21": 2},
+	"thorough": {"session": 3000, "gennaro": 1500, "hjky": 800, "redistribute": 1500, "lindell22": 1500, "boldyreva": 200, "boldyreva-3": 100, "dkls23": 90,
 		"canetti": 1000, "dkls23-softspoken": 40, "lindell17": 60, "cggmp21": 40},
 }
 
@@ -795,6 +809,12 @@ func main() {
 		if a.Search {
 			n *= 3
 		}
+		for _, kv := range strings.Split(os.Getenv("C04_QUOTA"), ",") {
+			if k, v, ok := strings.Cut(kv, "="); ok && k == ad.name {
+				n, _ = strconv.Atoi(v)
+			}
+		}
+		cpu0 := cpuSeconds()
 		var chosen []*mutation
 		taken := map[*mutation]bool{}
 		for pass := 0; len(chosen) < n && pass < 1000; pass++ {
@@ -839,6 +859,9 @@ func main() {
 		for i, m := range chosen {
 			rep := evaluate(ad, a.Seed, m, st.pool, wantOf(classes, ad, m))
 			report(st, m, rep, i)
+		}
+		if os.Getenv("C04_VERBOSE") != "" {
+			fmt.Fprintf(os.Stderr, "## %s: %d runs, %.1f cpu-s\n", ad.name, len(chosen), cpuSeconds()-cpu0)
 		}
 	}
 	res.Write(a.Out)
